@@ -941,6 +941,13 @@ fn all_alterations(world: &World, w: usize, thorough: bool) -> Vec<Alt> {
             }
             let mut x = base[j].clone();
             x.worldline_tick = wt(i as u64);
+            // the retained receipt's transaction counter is compared with the coordinate too (tx = tick + 1) but is not
+            // covered by its digest: a consistent forgery rewrites it along with the tick
+            if let Some(r) = &x.tick_receipt {
+                if let Some(r2) = rebuild_receipt(r, i as u64 + 1, |_, _| {}) {
+                    x.tick_receipt = Some(r2);
+                }
+            }
             let mut hist = base.clone();
             hist[i] = x;
             let mut spec = bspec(n);
